@@ -25,7 +25,7 @@ EXPLANATION = (
 )
 MANIFEST_ENTRY = {
     "category": "other",
-    "text": "Bounded symbolic checking of the real sampler on a corpus of IR programs: for all values of all RNG calls within K<=2-3 unrolled attempts, z3 decides draw-for-draw agreement with the prior (kinds, ranges, weights), equality of every output with an independent evaluator, exact acceptance, activation measure of soft requirements and the attempt count.",
+    "text": "Bounded symbolic checking of the real sampler on a corpus of IR programs (fixed, plus seeded generated ones): for all values of all RNG calls within K<=2-3 unrolled attempts, z3 decides draw-for-draw agreement with the prior (kinds, ranges, weights), equality of every output with an independent evaluator, exact acceptance, activation measure of soft requirements and the attempt count.",
     "note": "Trusted: CrossHair, z3, the IR evaluator, the models of random.randint/choices/random (documented distributions). Bounds: <=8 statements, <=5 random leaves, ranges <=6 wide, <=4 options, K<=3 attempts. Outside: continuous distributions, external samplers, mutation, empty ranges (rejection inside sampling).",
 }
 ASSUMPTIONS = [
